@@ -71,6 +71,34 @@ def _carriers(f, v, loop_body, header):
     return phis, loads
 
 
+def _returns_count(f, c):
+    """the function hands the transfer count of call c back to its caller (a chunk primitive)"""
+    from ..errflow import ret_sources
+    res = {id(c)}
+    work = [c]
+    while work:
+        v = work.pop()
+        for u in f.uses.get(v, []):
+            if u.op in ("sext", "zext", "trunc", "phi", "select") and id(u) not in res:
+                res.add(id(u))
+                work.append(u)
+    for (v, b) in ret_sources(f):
+        w = v
+        while w.is_inst and w.op in ("sext", "zext", "trunc"):
+            w = w.ops[0]
+        if id(w) in res or id(v) in res:
+            return True
+    return False
+
+
+def _param_index(f, v):
+    """index of the parameter of f that v is (modulo casts / a clamp of it), or None"""
+    for x in backward_slice(v, phi_control=False, limit=50):
+        if not x.is_inst and not x.is_const and x in f.params:
+            return f.params.index(x)
+    return None
+
+
 def partial_transfer(chk, prog):
     n = 0
     for src in IO_UNITS:
@@ -88,11 +116,61 @@ def partial_transfer(chk, prog):
                 n += 1
                 chk.analysed(f)
                 bi, si, oi = RAW[name]
+                if _returns_count(f, c) and f.internal:
+                    # a chunk primitive: one transfer (with its own EINTR retry) whose count goes back to the caller.
+                    # The loop / exit / progress obligations are the callers'; here only EINTR and 'zero is not progress'.
+                    pb, ps = _param_index(f, c.ops[bi]), _param_index(f, c.ops[si])
+                    _site(chk, prog, f, c, name, bi, si, oi, only=("eintr",))
+                    sites = [x for x in prog.callers_of(f) if x.bb.fn.unit.src in IO_UNITS]
+                    if pb is None or ps is None or not sites:
+                        chk.violation("K10-loop", "%s:%s" % (f.name, name), c, "%s hands the short count of %s to its callers, but buffer / "
+                                      "size are not its parameters or it has no caller in the I/O layer" % (f.name, name))
+                        continue
+                    chk.ok("K10-loop", "%s:%s" % (f.name, name), c, "chunk primitive: the count is returned; %d caller(s) carry the retry loop" % len(sites))
+                    for x in sites:
+                        g = x.bb.fn
+                        g.build()
+                        chk.analysed(g)
+                        _site(chk, prog, g, x, f.name, pb, ps, None, skip=("eintr", "zero"))
+                    continue
+                _site(chk, prog, f, c, name, bi, si, oi)
+    return n
+
+
+class _Filter:
+    """forwards only the verdicts of the wanted K10 sub-rules"""
+    def __init__(self, chk, only, skip):
+        self.chk, self.only, self.skip = chk, only, skip
+
+    def _want(self, rule):
+        k = rule.split("-", 1)[1] if "-" in rule else rule
+        return (self.only is None or k in self.only) and k not in self.skip
+
+    def ok(self, rule, *a, **kw):
+        if self._want(rule):
+            self.chk.ok(rule, *a, **kw)
+
+    def violation(self, rule, *a, **kw):
+        if self._want(rule):
+            self.chk.violation(rule, *a, **kw)
+
+    def __getattr__(self, k):
+        return getattr(self.chk, k)
+
+
+def _site(chk, prog, f, c, name, bi, si, oi, only=None, skip=()):
+    if only is not None and "eintr" in only and f.loop_of(c.bb) is None:
+        chk.violation("K10-eintr", "%s:%s" % (f.name, name), c, "an interrupted %s (EINTR) is not retried" % name)
+        return
+    chk = _Filter(chk, only, skip)
+    if True:
+        if True:
+            if True:
                 inst = "%s:%s" % (f.name, name)
                 loop = f.loop_of(c.bb)
                 if loop is None:
                     chk.violation("K10-loop", inst, c, "%s is not called in a retry loop: a short count truncates the transfer" % name)
-                    continue
+                    return
                 header, body = loop
                 chk.ok("K10-loop", inst, c, "called inside a loop")
                 # result classification
@@ -129,6 +207,24 @@ def partial_transfer(chk, prog):
                                 # the retry edge returns to the loop header with unchanged phis
                                 if _back_to_header_unchanged(f, retry, header, body, c):
                                     eintr_ok = True
+                # the same test written as  while (ret < 0 && errno == EINTR): the comparison feeds an i1 phi that is branched on
+                if not eintr_ok:
+                    for (b, s) in neg_edges:
+                        for blk in _reach_within(s, body):
+                            for cnd in blk.insts:
+                                if cnd.op != "icmp" or cnd.pred != "eq":
+                                    continue
+                                k = [o for o in cnd.ops if o.is_const and o.is_int and o.sval == EINTR]
+                                e = [x for x in backward_slice(cnd, through_loads=True) if x.is_inst and x.op == "call" and
+                                     norm_callee(x.callee) == "__errno_location"]
+                                if not (k and e):
+                                    continue
+                                for ph in f.uses.get(cnd, []):
+                                    if ph.op == "phi" and ph.ty == "i1" and all(o is cnd or (o.is_const and o.is_int and o.sval == 0) for o in ph.ops):
+                                        t = ph.bb.term
+                                        if t.op == "br" and len(t.x["succ"]) == 2 and t.ops[0] is ph:
+                                            if _back_to_header_unchanged(f, t.x["succ"][0], header, body, c):
+                                                eintr_ok = True
                 if eintr_ok:
                     chk.ok("K10-eintr", inst, c, "a negative result with errno == EINTR re-enters the loop with buffer/size/offset unchanged")
                 else:
@@ -191,6 +287,9 @@ def partial_transfer(chk, prog):
                                         any(x in res for x in backward_slice(st.ops[0], phi_control=False)):
                                     ok = True
                                     detail = "fill level '%s' advanced by the result" % fld[1]
+                    if not phis and not loads and what == "buffer" and strip_casts(v).is_const:
+                        chk.ok("K10-advance", inst + ":" + what, c, "constant block (every byte of it is the same filler): position-independent")
+                        continue
                     if not phis and not loads:
                         chk.violation("K10-advance", inst + ":" + what, c, "the %s operand of %s is the same in every iteration "
                                       "of the retry loop: after a short count the same bytes are transferred again" % (what, name))
@@ -200,7 +299,6 @@ def partial_transfer(chk, prog):
                     else:
                         chk.violation("K10-advance", inst + ":" + what, c, "after a short %s the %s operand is not advanced by "
                                       "the number of bytes transferred: data is lost or duplicated" % (name, what))
-    return n
 
 
 def _reach_within(start, body):
@@ -345,10 +443,10 @@ def run(chk):
     t2_rule(chk, progs["tar2sqfs"])
     chk.floor("K2-raw", 4)
     chk.floor("K10-loop", 4)
-    chk.floor("K10-eintr", 4)
-    chk.floor("K10-zero", 4)
+    chk.floor("K10-eintr", 2)
+    chk.floor("K10-zero", 2)
     chk.floor("K10-advance", 8)
-    chk.floor("K10-exit", 4)
+    chk.floor("K10-exit", 2)
     chk.floor("K10-consume", 6)
     chk.floor("T1-eof", 1)
     chk.floor("T2-short", 5)
